@@ -19,7 +19,7 @@ WHAT = ("match", "vars", "counters", "valid")
 KNOWN_SWITCHES = ("F9", "F9b")
 RULE = (
     "product of: control form {stop(c), c->stop(), skip(c), c->skip(), c->advance(1..3), fail_and_stop(c), last()->push, bare last()} x "
-    "position among 1-4 push components x firing line(s) x scan window {*,1*,2*,0-3,1-4,2-9,1+3-5} x file layout {plain, interior blank, "
+    "position among 1-4 push components (also with a plain match component that fails on the firing lines) x firing line(s) x scan window {*,1*,2*,0-3,1-4,2-9,1+3-5} x file layout {plain, interior blank, "
     "trailing blank, two trailing blanks, blank before firing line}; thorough adds two control functions per program and an "
     "onmatch-qualified component before the control function. Non-trivial: the control function fires on at least one scanned line; "
     "distinct = distinct (program skeleton, firing lines, window, layout)."
@@ -52,10 +52,13 @@ WINDOWS = ["*", "1*", "2*", "0-3", "1-4", "2-9", "1+3-5"]
 LAYOUTS = ["plain", "interior-blank", "trailing-blank", "two-trailing-blanks", "blank-before-fire"]
 
 
+NM = ("eq", ("hdr", "2"), ("str", "m"))  # a plain match component that does not hold on the firing lines
+
+
 def make_rows(layout, fire, n=6):
     rows = []
     for i in range(n):
-        rows.append([f"r{i}", "F" if i in fire else "n"])
+        rows.append([f"r{i}", "F" if i in fire else "n", "x" if i in fire else "m"])
     if layout == "interior-blank":
         rows.insert(2, [])
     elif layout == "trailing-blank":
@@ -89,6 +92,9 @@ def cases(tier, seed):
                                     continue
                                 rows = make_rows(lay, fire)
                                 yield {"scan": w, "comps": comps, "mode": "AND"}, rows, {"kind": kind, "K": K, "p": p, "fire": fire, "window": w, "layout": lay, "n": n_adv}
+                                if kind in ("skip(c)", "c->skip()", "stop(c)", "c->stop()", "c->advance(n)") and lay in ("plain", "interior-blank") and n_adv in (0, 2):
+                                    # the same with an ordinary match component, placed first, that fails on the firing line
+                                    yield {"scan": w, "comps": [NM] + comps, "mode": "AND"}, rows, {"kind": kind + "+unmatched-sibling", "K": K, "p": p, "fire": fire, "window": w, "layout": lay, "n": n_adv}
     # random second-order cases: two controls, onmatch before the control
     r = random.Random(f"{seed}:C13:extra")
     n_extra = 3000 if tier == "quick" else 60000
@@ -113,6 +119,10 @@ def cases(tier, seed):
         if r.random() < 0.3 and "c->advance(n)" not in ks and not any(k.startswith("onmatch") for k in ks):
             comps.append(CONTROLS["last()->push"](0))
             ks.append("last")
+        if r.random() < 0.3 and not any(k.startswith("onmatch") for k in ks):
+            # (with an onmatch component the known look-ahead findings F9/F9b already decide what runs on such a line)
+            comps.insert(r.randint(0, len(comps)), NM)
+            ks.append("unmatched-sibling")
         fire = sorted(r.sample(range(6), r.choice([1, 1, 2, 3])))
         w = r.choice(WINDOWS)
         lay = r.choice(LAYOUTS)
